@@ -47,13 +47,14 @@ arg_spec.py `_cached_get_argspec`, `_get_generic_bases_cached`, annotations.py `
 and the protocol-compatibility check of type_object.py `TypeObject.can_assign` with the
 recursion guard `ctx.assumed_compatibilities` (checker.py:228‥242) and `_protocol_positive_cache`
 (`check`): cache key = (self_val, other VALUE, exclude-Any mode) — not the assumptions in force;
-guard key = (self TypeObject, other TypeObject).
+guard key = (self TypeObject, other TypeObject). A positive answer is a bounds map; the cache holds
+the maps themselves (`St.cache : List (CKey × BMap)`), `unify_bounds_maps` is the pure `unifyBM`.
 
 Not modelled: how `get_attribute_from_value` finds members and how `expected.can_assign(actual)`
 decides one slot (that is the value kernel, C03/C04) — a *world* lists, per (protocol, variant of its
 generic arguments, value), the members and per member the slot checks as atoms (`const b`, `anyOk` =
-succeeds iff Any is not excluded, `sub p a v` = a nested protocol check); bounds maps (only error /
-no error); the `artificial_bases` retry inside `check` (values with artificial bases are int/float
+succeeds iff Any is not excluded, `bound tv b` = accepted with a bound on a type variable, `sub p a v` = a nested protocol check);
+the kinds of bounds (tokens only) and the solving of type variables from a bounds map; the `artificial_bases` retry inside `check` (values with artificial bases are int/float
 subclasses; it is the separate order site `siteFirstSuccess`); `TypedValue._type_object`.
 
 No imports: this file must stay core-only so the driver starts fast.
@@ -286,17 +287,36 @@ def memoRun {Q κ ν : Type} [BEq κ] (key : Q → κ) (hashable : κ → Bool) 
 abbrev Pid := Nat
 abbrev Vid := Nat
 
+/-- A bounds map (`BoundsMap = Mapping[TypeVarLike, Sequence[Bound]]`): per type variable, in
+insertion order, the list of bounds (tokens). A positive `can_assign` answer *is* a bounds map. -/
+abbrev BMap := List (Nat × List Nat)
+
+/-- `result.setdefault(tv, []).extend(bounds)` on an immutable map: the entry's list is a new list. -/
+def bmAdd (tv : Nat) (bs : List Nat) : BMap → BMap
+  | [] => [(tv, bs)]
+  | (t, l) :: m => if t == tv then (t, l ++ bs) :: m else (t, l) :: bmAdd tv bs m
+
+/-- The inner loop of `unify_bounds_maps`: `for tv, bounds in bounds_map.items(): …`. -/
+def unify2 (acc m : BMap) : BMap := m.foldl (fun r e => bmAdd e.1 e.2 r) acc
+
+/-- value.py `unify_bounds_maps`: `result = {}`, then every map is merged into it. It is a function
+of its arguments only and returns a new map: no argument (in particular no map stored in a cache)
+is changed. That Python's function is as pure as this one is what the correspondence stream
+`unify` and the cache snapshots of the harness check. -/
+def unifyBM (ms : List BMap) : BMap := ms.foldl unify2 []
+
 /-- One slot check `expected.can_assign(actual, ctx)` inside a protocol member. -/
 inductive Atom
-  | const (b : Bool)          -- decided without Any and without protocols
+  | const (b : Bool)          -- decided without Any and without protocols, no bounds
   | anyOk                     -- `actual` is Any: accepted unless `ctx.should_exclude_any()`
+  | bound (tv b : Nat)        -- `TypeVarValue(tv).can_assign(actual)`: accepted, contributes a bound on `tv`
   | sub (p : Pid) (a : Nat) (v : Vid)   -- `GenericValue(p, args_a).can_assign(v)`: nested protocol check
   deriving DecidableEq, Repr, Inhabited
 
 /-- The world: for (protocol class, variant of its generic arguments, value) the members in
-iteration order, each a conjunction of slot checks evaluated left to right; `tobj v` = the TypeObject of value `v` (several values can share
-one: `KnownValue(C())`, `TypedValue(C)`). Pairs not listed have the single member `[const false]`
-("has no attribute"). -/
+iteration order, each a conjunction of slot checks evaluated left to right; `tobj v` = the
+TypeObject of value `v` (several values can share one: `KnownValue(C())`, `TypedValue(C)`). Pairs
+not listed have the single member `[const false]` ("has no attribute"). -/
 structure World where
   reqs : List ((Pid × Nat × Vid) × List (List Atom))
   tobjs : List (Vid × Nat)
@@ -307,49 +327,72 @@ def World.req (W : World) (p : Pid) (a : Nat) (v : Vid) : List (List Atom) :=
 
 def World.tobj (W : World) (v : Vid) : Nat := (W.tobjs.lookup v).getD v
 
+/-- Cache key after e01ac16: `(self_val, other_val, ctx.should_exclude_any())`, here (mode, variant
+of the generic arguments, protocol, other value). -/
+abbrev CKey := Bool × Nat × Pid × Vid
+
 /-- Checker state shared by all checks of one process: `_protocol_positive_cache` of every protocol
-TypeObject — after e01ac16 keyed by `(self_val, other_val, ctx.should_exclude_any())`, here
-(mode, variant of the generic arguments, protocol, other value) — and
+TypeObject *with its content* (key ↦ the bounds map that was stored) and
 `Checker.assumed_compatibilities`. -/
 structure St where
-  cache : List (Bool × Nat × Pid × Vid) := []
+  cache : List (CKey × BMap) := []
   stack : List (Pid × Nat) := []
   deriving Repr, Inhabited, DecidableEq
 
+/-- The result of a `can_assign`: `none` = `CanAssignError`, `some bm` = the bounds map. -/
+abbrev Ans := Option BMap
+
 /-- One slot. `rec` is the nested `TypeObject.can_assign`. -/
-def evalAtom (rec : St → Pid → Nat → Vid → Bool × St) (ex : Bool) (st : St) : Atom → Bool × St
-  | .const b => (b, st)
-  | .anyOk => (!ex, st)
+def evalAtom (rec : St → Pid → Nat → Vid → Ans × St) (ex : Bool) (st : St) : Atom → Ans × St
+  | .const b => (if b then some [] else none, st)
+  | .anyOk => (if ex then none else some [], st)
+  | .bound tv b => (some [(tv, [b])], st)
   | .sub p a v => rec st p a v
 
-/-- The slots of one member, left to right, stopping at the first error. -/
-def evalAll (rec : St → Pid → Nat → Vid → Bool × St) (ex : Bool) : St → List Atom → Bool × St
-  | st, [] => (true, st)
+/-- The slots of one member, left to right, stopping at the first error; the bounds maps of the
+slots are collected (`bounds_maps.append(can_assign)`). -/
+def evalAtoms (rec : St → Pid → Nat → Vid → Ans × St) (ex : Bool) : St → List Atom → Option (List BMap) × St
+  | st, [] => (some [], st)
   | st, a :: as =>
     let r := evalAtom rec ex st a
-    if r.1 then evalAll rec ex r.2 as else (false, r.2)
+    match r.1 with
+    | none => (none, r.2)
+    | some m =>
+      let r2 := evalAtoms rec ex r.2 as
+      (r2.1.map (m :: ·), r2.2)
 
-/-- `_is_compatible_with_protocol`: the members in order, return at the first error. -/
-def evalMembers (rec : St → Pid → Nat → Vid → Bool × St) (ex : Bool) : St → List (List Atom) → Bool × St
-  | st, [] => (true, st)
+/-- `_is_compatible_with_protocol`: the members in order, return at the first error; the map of a
+member is `unify_bounds_maps` of its slots' maps. -/
+def evalMembers (rec : St → Pid → Nat → Vid → Ans × St) (ex : Bool) :
+    St → List (List Atom) → Option (List BMap) × St
+  | st, [] => (some [], st)
   | st, m :: ms =>
-    let r := evalAll rec ex st m
-    if r.1 then evalMembers rec ex r.2 ms else (false, r.2)
+    let r := evalAtoms rec ex st m
+    match r.1 with
+    | none => (none, r.2)
+    | some bms =>
+      let r2 := evalMembers rec ex r.2 ms
+      (r2.1.map (unifyBM bms :: ·), r2.2)
 
 /-- type_object.py `TypeObject.can_assign`, protocol branch (:146‥167, after e01ac16). `ex` =
-`ctx.should_exclude_any()`. A positive answer is cached also while assumptions are in force (the
-repair `protocol-cache-assumptions` was not applied). Fuel: Python recurses until the guard fires. -/
-def check (W : World) (ex : Bool) : Nat → St → Pid → Nat → Vid → Bool × St
-  | 0, st, _, _, _ => (false, st)
+`ctx.should_exclude_any()`. The answer `unify_bounds_maps(bounds_maps)` is stored in the cache and
+the stored map is what a later hit returns. A positive answer is cached also while assumptions are
+in force (the repair `protocol-cache-assumptions` was not applied). Fuel: Python recurses until the
+guard fires. -/
+def check (W : World) (ex : Bool) : Nat → St → Pid → Nat → Vid → Ans × St
+  | 0, st, _, _, _ => (none, st)
   | n + 1, st, p, a, v =>
-    if st.cache.contains (ex, a, p, v) then (true, st)              -- :148-151 cache hit
-    else if st.stack.contains (p, W.tobj v) then (true, st)         -- :150-151 guard
-    else
-      let st1 := { st with stack := st.stack ++ [(p, W.tobj v)] }   -- :152 assume_compatibility
-      let r := evalMembers (check W ex n) ex st1 (W.req p a v)      -- :153
-      let st2 := { r.2 with stack := r.2.stack.dropLast }           -- checker.py:241 pop
-      if r.1 then (true, { st2 with cache := (ex, a, p, v) :: st2.cache }) -- :165-166
-      else (false, st2)
+    match st.cache.lookup (ex, a, p, v) with
+    | some bm => (some bm, st)                                       -- :148-151 cache hit
+    | none =>
+      if st.stack.contains (p, W.tobj v) then (some [], st)          -- :153-154 guard: `{}`
+      else
+        let st1 := { st with stack := st.stack ++ [(p, W.tobj v)] }  -- :155 assume_compatibility
+        let r := evalMembers (check W ex n) ex st1 (W.req p a v)     -- :156
+        let st2 := { r.2 with stack := r.2.stack.dropLast }          -- checker.py pop
+        match r.1 with
+        | some bms => (some (unifyBM bms), { st2 with cache := ((ex, a, p, v), unifyBM bms) :: st2.cache })
+        | none => (none, st2)
 
 /-- A top-level query of a history. -/
 structure Query where
@@ -364,16 +407,22 @@ def runHist (W : World) (fuel : Nat) (st : St) (h : List Query) : St :=
   h.foldl (fun s q => (check W q.ex fuel s q.p q.a q.v).2) st
 
 /-- The answers along a history (for the driver). -/
-def answers (W : World) (fuel : Nat) : St → List Query → List Bool
+def answers (W : World) (fuel : Nat) : St → List Query → List Ans
   | _, [] => []
   | st, q :: h => let r := check W q.ex fuel st q.p q.a q.v; r.1 :: answers W fuel r.2 h
 
 /-- The answer to `q` after history `h` in a fresh process. -/
-def answerAfter (W : World) (fuel : Nat) (h : List Query) (q : Query) : Bool :=
+def answerAfter (W : World) (fuel : Nat) (h : List Query) (q : Query) : Ans :=
   (check W q.ex fuel (runHist W fuel {} h) q.p q.a q.v).1
 
 /-- The answer to `q` from a fresh checker. -/
-def answerFresh (W : World) (fuel : Nat) (q : Query) : Bool := answerAfter W fuel [] q
+def answerFresh (W : World) (fuel : Nat) (q : Query) : Ans := answerAfter W fuel [] q
+
+/-- What the call machinery does with the protocol's bounds map: it is unified with the bounds the
+other arguments of the call contribute (`extra`), e.g. `pow(x, 2)`: the map of
+`_SupportsPow2[_E, _T_co] ← Fraction` with `Literal[2] <= _E`. The state is not an argument: a
+unification cannot reach into the cache. -/
+def callBounds (ans : Ans) (extra : BMap) : Ans := ans.map fun bm => unifyBM [bm, extra]
 
 /-! ### Variants of the cache key
 
@@ -382,57 +431,33 @@ value only: regression documentation), `true true false` is `check`, `true true 
 refrains from caching while an assumption is in force (the repair not applied; used to classify a
 history dependence as `cacheUnderFailedAssumption`). -/
 
-/-- State of the repaired check: cache entries carry the mode. -/
-structure St2 where
-  cache : List (Bool × Nat × Pid × Vid) := []
-  stack : List (Pid × Nat) := []
-  deriving Repr, Inhabited, DecidableEq
-
-def evalAtom2 (rec : St2 → Pid → Nat → Vid → Bool × St2) (ex : Bool) (st : St2) : Atom → Bool × St2
-  | .const b => (b, st)
-  | .anyOk => (!ex, st)
-  | .sub p a v => rec st p a v
-
-def evalAll2 (rec : St2 → Pid → Nat → Vid → Bool × St2) (ex : Bool) : St2 → List Atom → Bool × St2
-  | st, [] => (true, st)
-  | st, a :: as =>
-    let r := evalAtom2 rec ex st a
-    if r.1 then evalAll2 rec ex r.2 as else (false, r.2)
-
-def evalMembers2 (rec : St2 → Pid → Nat → Vid → Bool × St2) (ex : Bool) :
-    St2 → List (List Atom) → Bool × St2
-  | st, [] => (true, st)
-  | st, m :: ms =>
-    let r := evalAll2 rec ex st m
-    if r.1 then evalMembers2 rec ex r.2 ms else (false, r.2)
-
-/-- `check` with the cache keyed additionally by the mode [`modeKey`] and/or by the generic
-arguments of the protocol [`argKey`], and/or written only when no assumption is in force
-[`topOnly`]. -/
 def check2 (W : World) (modeKey argKey topOnly : Bool) (ex : Bool) :
-    Nat → St2 → Pid → Nat → Vid → Bool × St2
-  | 0, st, _, _, _ => (false, st)
+    Nat → St → Pid → Nat → Vid → Ans × St
+  | 0, st, _, _, _ => (none, st)
   | n + 1, st, p, a, v =>
-    if st.cache.contains (modeKey && ex, (if argKey then a else 0), p, v) then (true, st)
-    else if st.stack.contains (p, W.tobj v) then (true, st)
-    else
-      let st1 := { st with stack := st.stack ++ [(p, W.tobj v)] }
-      let r := evalMembers2 (check2 W modeKey argKey topOnly ex n) ex st1 (W.req p a v)
-      let st2 := { r.2 with stack := r.2.stack.dropLast }
-      if r.1 then
-        (true, if topOnly && !st2.stack.isEmpty then st2
-               else { st2 with cache := (modeKey && ex, (if argKey then a else 0), p, v) :: st2.cache })
-      else (false, st2)
+    match st.cache.lookup (modeKey && ex, (if argKey then a else 0), p, v) with
+    | some bm => (some bm, st)
+    | none =>
+      if st.stack.contains (p, W.tobj v) then (some [], st)
+      else
+        let st1 := { st with stack := st.stack ++ [(p, W.tobj v)] }
+        let r := evalMembers (check2 W modeKey argKey topOnly ex n) ex st1 (W.req p a v)
+        let st2 := { r.2 with stack := r.2.stack.dropLast }
+        match r.1 with
+        | some bms =>
+          (some (unifyBM bms), if topOnly && !st2.stack.isEmpty then st2
+                 else { st2 with cache := ((modeKey && ex, (if argKey then a else 0), p, v), unifyBM bms) :: st2.cache })
+        | none => (none, st2)
 
-/-- The answers of the repaired check along a history (for the driver). -/
-def answers2 (W : World) (modeKey argKey topOnly : Bool) (fuel : Nat) : St2 → List Query → List Bool
+/-- The answers of a variant along a history (for the driver). -/
+def answers2 (W : World) (modeKey argKey topOnly : Bool) (fuel : Nat) : St → List Query → List Ans
   | _, [] => []
   | st, q :: h =>
     let r := check2 W modeKey argKey topOnly q.ex fuel st q.p q.a q.v
     r.1 :: answers2 W modeKey argKey topOnly fuel r.2 h
 
 def answerAfter2 (W : World) (modeKey argKey topOnly : Bool) (fuel : Nat) (h : List Query)
-    (q : Query) : Bool :=
+    (q : Query) : Ans :=
   let st := h.foldl (fun s q => (check2 W modeKey argKey topOnly q.ex fuel s q.p q.a q.v).2) {}
   (check2 W modeKey argKey topOnly q.ex fuel st q.p q.a q.v).1
 
